@@ -38,7 +38,7 @@ def records(run_id, trace_path, root, src_prefixes, dst_prefixes, cfg, exit_code
             return p[len(root) + 1:] or "."
         return p or ""
     out = [{"ev": "reset", "run": run_id, "driver": cfg.get("driver", ""), "fsync": bool(cfg.get("fsync")), "reflink": cfg.get("reflink", "auto"),
-            "protected": list(protected), "special": list(special), "peakBase": peak_base, "fdSlack": fd_slack, "workers": int(cfg.get("workers") or 0)}]
+            "protected": list(protected), "special": list(special), "peakBase": peak_base, "fdSlack": fd_slack, "workers": int(cfg.get("workers") or 0), "lite": only is not None}]
     n = 0
     for e in s2e.events(trace_path, cl):
         if e["ev"] in ("exit", "read", "seek", "readdir", "fiemap"):
